@@ -30,7 +30,8 @@ POOLS = {
     ],
     "thorough": [
         dict(nv=2, nu=2, maxnew=1, seqlen=3, expand_new=False),
-        dict(nv=1, nu=2, maxnew=1, seqlen=2, expand_new=True),
+        dict(nv=1, nu=1, maxnew=1, seqlen=2, expand_new=True),
+        dict(nv=0, nu=2, maxnew=1, seqlen=2, expand_new=True),
         dict(nv=3, nu=2, maxnew=0, seqlen=0, expand_new=False),
         dict(nv=1, nu=3, maxnew=0, seqlen=0, expand_new=False),
     ],
